@@ -116,6 +116,16 @@ FLAVOURS[16] = ("This round, write a CLEAN-UP pull request that REMOVES or SIMPL
                 "property must come from the removed behaviour, must need something specific to manifest, and must differ in "
                 "mechanism from the earlier changes listed above.")
 
+FLAVOURS[17] = ("This round, the contributor holds a PLAUSIBLE BUT WRONG BELIEF about a corner of the semantics - of Color BASIC / "
+                "Extended Color BASIC (rounding, operator precedence, string function edge cases, FOR / NEXT, IF / ELSE binding, "
+                "DATA / READ, PRINT formatting, what is an error and what is not), of BASIC09 (parameter passing, numeric types, "
+                "string sizes, statement syntax), of the command line conventions, or of one of the picture file formats (byte and "
+                "nibble order, what a count means, where a header ends, which values are legal) - and sends a 5-40 line pull request "
+                "('commit_message' in meta.json) that 'corrects' the tool towards that belief in a corner the tests do not pin. The "
+                "commit message argues the belief convincingly (it may cite a manual from memory). The change must break the property "
+                "as literally stated, must need something specific to manifest, and must differ in mechanism from the earlier "
+                "changes listed above.")
+
 
 def main():
     rnd, outdir = int(sys.argv[1]), sys.argv[2]
